@@ -158,14 +158,14 @@ func abstractIdent(id string, names []named, classes map[string]bool) string {
 			classes[n.kind+":"+c] = true
 		}
 	}
-	if core == strings.ToLower(core) && !strings.Contains(core, "_") { // package-like identifier
+	if core == strings.ToLower(core) { // package-like identifier (goa keeps the underscores of a service name: user_storepb)
 		for _, suf := range pkgSuffixes {
 			if !strings.HasSuffix(core, suf) {
 				continue
 			}
 			base := core[:len(core)-len(suf)]
 			for _, n := range names {
-				if (n.kind == "svc" || n.kind == "api" || suf == "") && n.norm == base {
+				if (n.kind == "svc" || n.kind == "api" || suf == "") && (n.norm == base || n.norm == spec.Norm(base)) {
 					note(n)
 					return "<" + n.kind + ">" + suf + trail
 				}
